@@ -313,7 +313,7 @@ def f_prodcons4():
     return files
 
 
-def f_deferplan(slow_len=6, selfprod=0):
+def f_deferplan(slow_len=6, selfprod=0, chain=0):
     """A planning script defines a slow step, then amends an input that is not built yet: it is
     deferred and runs again (reset_for_rerun detaches the slow step, define_step re-attaches it)
     while the slow step may still be running. The awaited input is produced by a step of another
@@ -322,6 +322,11 @@ def f_deferplan(slow_len=6, selfprod=0):
     slow = [["write_partial", "slow.txt"]] + [["nop"]] * (slow_len - 2) + [["write", "slow.txt", []]]
     gen = tr("G", ["src.txt"], ["g.txt"])
     p2 = [["run", "./slow.py", {"out": ["slow.txt"]}]]
+    if chain:
+        # the slow step consumes the output of a step of the same script: when the script runs
+        # again both are detached, and the slow step may complete before they are re-declared
+        slow = [["write_partial", "slow.txt"]] + [["nop"]] * (slow_len - 2) + [["write", "slow.txt", ["q.txt"]]]
+        p2 = [tr("Q", [], ["q.txt"]), ["run", "./slow.py", {"inp": ["q.txt"], "out": ["slow.txt"]}]]
     if selfprod:
         p2.append(gen)
     p2 += [["amend", {"inp": ["g.txt"]}], ["read", "g.txt"], ["write", "p2.out", ["g.txt"]]]
